@@ -170,6 +170,11 @@ class Grammar:
                             for t2, sel in self.gen(ctx, m - n1):
                                 if t2 == INT and (sel[0] != "const" or "constsel" in P):
                                     yield (t[1][0], ("idxe", x, sel))
+        # ---- called parameterless lambda: (lambda: body)()
+        if "app0" in P:
+            for tb, body in self.gen(ctx, m):
+                if self.pkg_depth_of(tb) <= self.pkg_depth and body[0] != "app0":
+                    yield (tb, ("app0", body))
         # ---- method calls with arguments
         if "meth" in P and m >= 2:
             for n1 in range(1, m):
@@ -360,7 +365,7 @@ def binder_info(term, nctx=0):
 
 
 _TAGS = {"ds", "var", "attr", "meth", "const", "bin", "neg", "not", "cmp", "bool", "ifexp", "op",
-         "count", "first", "app", "tup", "lst", "dic", "idx", "key", "dattr", "idxv", "idxe", "app2", "keyv"}
+         "count", "first", "app", "tup", "lst", "dic", "idx", "key", "dattr", "idxv", "idxe", "app2", "keyv", "app0"}
 
 
 def namings(term, pool, ctx_names=()):
@@ -433,6 +438,8 @@ def render(term, names, ctx_names=()):
             if t[3]:
                 return f"(lambda {nm}: {body})({nm}={arg})"
             return f"(lambda {nm}: {body})({arg})"
+        if tag == "app0":
+            return f"(lambda: {r(t[1], stack)})()"
         if tag == "app2":
             n1 = names[counter[0]]
             n2 = names[counter[0] + 1]
